@@ -105,6 +105,9 @@ Definition lib_fn (name : bytes) : option fn_def :=
                       | VOk (VBytes a) :: _ => Some (Some (VBytes (bytes_of_string "tally:0=Bytes;1=Int|" ++ a)))
                       | _ => Some None
                       end))
+  else if is "tally0" then
+    (* the same definition without parameters: the (empty) record still reaches the compiled function *)
+    Some (simple [] [] TBytes (fun _ => Some (Some (VBytes (bytes_of_string "tally:|")))))
   else if is "boom" then
     Some (simple [(KField, TBytes)] [] TBytes
             (fun l => match l with
